@@ -114,7 +114,7 @@ func (c *syncMap) ExpireAll(ctx context.Context) {
 	c.data.Range(func(key, value interface{}) bool {
 		cacheEntry := value.(*TraitEntry) //nolint // Panic on type assertion failure is fine here.
 
-		cacheEntry.E = startTS
+		atomic.StoreInt64(&cacheEntry.E, startTS)
 		cnt++
 
 		return true
@@ -143,7 +143,7 @@ func (c *syncMap) deleteExpired(before time.Time) {
 
 	c.data.Range(func(key, value interface{}) bool {
 		cacheEntry := value.(*TraitEntry) //nolint // Panic on type assertion failure is fine here.
-		if cacheEntry.E != 0 && cacheEntry.E < beforeTS {
+		if e := atomic.LoadInt64(&cacheEntry.E); e != 0 && e < beforeTS {
 			c.data.Delete(key)
 		}
 
